@@ -1,17 +1,20 @@
 #!/bin/bash
-# usage: try_mutant.sh <patch.diff> <Cxx> [tier]   -- applies patch to /repo, runs the check, reverts
+# usage: try_mutant.sh <patch.diff> <Cxx> [tier]
+# Applies the patch to a scratch git worktree of /repo HEAD (never to /repo itself), runs the check against that
+# worktree (VERIF_REPO) with evidence/replays redirected to a scratch directory (VERIF_OUT), removes both.
+# Safe to run while other checks run against /repo.
 set -u
-patch=$1; prop=$2; tier=${3:-quick}
-cd /repo || exit 9
-if [ -n "$(git status --porcelain --untracked-files=no)" ]; then echo "repo dirty"; exit 9; fi
-git apply "$patch" || { echo "PATCH DOES NOT APPLY"; exit 9; }
-cd /verif && VERIF_MUTANT=1 ./check $prop --tier $tier > /tmp/try_mutant.$prop.log 2>&1; rc=$?
-git -C /repo checkout -- .
-grep -c "^VIOLATION" /tmp/try_mutant.$prop.log | sed 's/^/violations: /'
-grep "^VIOLATION" /tmp/try_mutant.$prop.log | head -3 | cut -c1-250
-tail -1 /tmp/try_mutant.$prop.log | cut -c1-300
-echo "rc=$rc"
-# replays created by mutant runs are not evidence for the unchanged tree
-rm -rf /verif/replays
-git -C /verif checkout -- evidence 2>/dev/null
+patch=$(readlink -f "$1"); prop=$2; tier=${3:-quick}
+id=$$
+wt=/var/tmp/mutwt.$id; out=/var/tmp/mutout.$id
+git -C /repo worktree add -q --detach $wt HEAD || exit 9
+trap 'git -C /repo worktree remove --force $wt 2>/dev/null; rm -rf $out' EXIT
+if ! git -C $wt apply "$patch"; then echo "PATCH DOES NOT APPLY"; exit 9; fi
+mkdir -p $out
+log=${TRY_LOG:-/var/tmp/try_mutant.$prop.$id.log}
+( cd /verif && VERIF_MUTANT=1 VERIF_REPO=$wt VERIF_OUT=$out ./check $prop --tier $tier > $log 2>&1 ); rc=$?
+grep -c "^VIOLATION" $log | sed 's/^/violations: /'
+grep "^VIOLATION" $log | head -3 | cut -c1-250
+tail -1 $log | cut -c1-300
+echo "rc=$rc log=$log"
 exit 0
